@@ -84,13 +84,16 @@ type content struct {
 	// 0 <= i < Wide: host i is rewritten in version v iff i+v is even, to
 	// safe<v>.<kind>.test, so the verdict of EVERY host changes with v+1.
 	Wide int `json:"wide_safe_search_hosts,omitempty"`
+	// WideRL > 0 adds to rule list vl_a the hosts r<i>.vla.test, 0 <= i <
+	// WideRL: host i is blocked in version v iff i+v is even.
+	WideRL int `json:"wide_rule_list_hosts,omitempty"`
 	// HashFiller unrelated hosts are put in FRONT of every hash list, so that
 	// resetting the hash storage takes a while.
 	HashFiller int `json:"hash_list_filler_hosts,omitempty"`
 }
 
 func (c content) clone() content {
-	n := content{RL: map[string]int{}, Svc: map[string]int{}, Hash: map[string]int{}, SSGen: c.SSGen, SSYT: c.SSYT, Filler: c.Filler, Wide: c.Wide, HashFiller: c.HashFiller}
+	n := content{RL: map[string]int{}, Svc: map[string]int{}, Hash: map[string]int{}, SSGen: c.SSGen, SSYT: c.SSYT, Filler: c.Filler, Wide: c.Wide, WideRL: c.WideRL, HashFiller: c.HashFiller}
 	for k, v := range c.RL {
 		n.RL[k] = v
 	}
@@ -111,7 +114,7 @@ func fillerRules(b *strings.Builder, n int) {
 
 // ruleListText is version v of rule list number x.  None of the rules carries
 // a client-specific modifier.
-func ruleListText(id string, x, v, filler int) string {
+func ruleListText(id string, x, v, filler, wide int) string {
 	l := label(id)
 	b := &strings.Builder{}
 	fmt.Fprintf(b, "! %s version %d\n", id, v)
@@ -128,6 +131,13 @@ func ruleListText(id string, x, v, filler int) string {
 	fmt.Fprintf(b, "|rwc.%s.test^$dnsrewrite=NOERROR;CNAME;target%d.%s.test\n", l, v, l)
 	fmt.Fprintf(b, "|rwr.%s.test^$dnsrewrite=REFUSED\n", l)
 	fillerRules(b, filler)
+	if x == 0 {
+		for i := 0; i < wide; i++ {
+			if (i+v)%2 == 0 {
+				fmt.Fprintf(b, "||r%d.%s.test^\n", i, l)
+			}
+		}
+	}
 	return b.String()
 }
 
@@ -277,7 +287,7 @@ func (s *srv) serve(w http.ResponseWriter, rq *http.Request) {
 			http.NotFound(w, rq)
 			return
 		}
-		body = ruleListText(id, x, c.RL[id], c.Filler)
+		body = ruleListText(id, x, c.RL[id], c.Filler, c.WideRL)
 	case p == "/svc/index":
 		body = svcIndexJSON(c)
 	case p == "/ss/gen":
